@@ -137,6 +137,54 @@ def callee_name(c, n):
     return (None, None)
 
 
+def _scatter_gather(c, to_w, from_w):
+    """A field of the written form that the writing conversion fills *by key* (`col[sample.index] = v`: an assignment into
+    an indexed local that becomes the field) has to be read by key on the way back.  A reading conversion that only
+    iterates over that field (`into_iter` / `iter` / `zip`, never an index) pairs its elements with whatever it walks in
+    step with by position: every value lands on another element unless the keys happen to be 0, 1, 2, ..."""
+    tail = strip(to_w["body"])
+    while tail.get("k") == "Block" and tail.get("e") is not None:
+        tail = strip(tail["e"])
+    if tail.get("k") != "Struct":
+        return None
+    scattered = set()
+    for y in walk(to_w["body"]):
+        if y.get("k") == "Assign":
+            l = peel_refs(y["l"])
+            if l.get("k") == "Index":
+                b = peel_refs(l["e"])
+                if b.get("k") == "Path" and "local" in b:
+                    scattered.add(b["local"])
+    keyed = [fl["name"] for fl in tail.get("fields") or [] if peel_refs(fl["e"]).get("k") == "Path" and peel_refs(fl["e"]).get("local") in scattered]
+    if not keyed:
+        return None
+    src = next((b for p_ in from_w["params"] for b in pat_bindings(p_)), None)
+    if src is None:
+        return None
+    for nm in keyed:
+        reads = [y for y in walk(from_w["body"]) if y.get("k") == "Field" and y["name"] == nm and peel_refs(y["e"]).get("local") == src["local"]]
+        if not reads:
+            continue
+        # locals the field is moved into
+        holders = set()
+        for y in walk(from_w["body"]):
+            if y.get("k") == "LetStmt" and y.get("init") is not None and y["pat"].get("k") == "Bind" and any(z in reads for z in walk(y["init"])) and peel_refs(y["init"]) in reads:
+                holders.add(y["pat"]["local"])
+        indexed = False
+        for y in walk(from_w["body"]):
+            if y.get("k") == "Index":
+                b = peel_refs(y["e"])
+                if b in reads or (b.get("k") == "Path" and b.get("local") in holders):
+                    indexed = True
+            if y.get("k") == "MethodCall" and y["name"] in ("get", "get_mut", "get_unchecked", "remove", "swap_remove"):
+                b = peel_refs(y["recv"])
+                if b in reads or (b.get("k") == "Path" and b.get("local") in holders):
+                    indexed = True
+        if not indexed:
+            return (nm, "the writing conversion fills `%s` by key (an indexed assignment) while the reading conversion only walks it in order, pairing its elements by position" % nm)
+    return None
+
+
 def _conversion_carries(c, adt, short):
     """For a struct that is (de)serialised through `serde(into = W, from = W)`: True if both `From` impls between it and W
     build their target as a struct literal whose every field is taken from the like-named field of the source (by
@@ -159,6 +207,9 @@ def _conversion_carries(c, adt, short):
     # wire type of the same short name (`wire::T` for `T`): both have the same short name; tell them apart by the module path
     if not to_w or not from_w:
         return None
+    sg = _scatter_gather(c, to_w[0][0], from_w[0][0])
+    if sg is not None:
+        return sg
     for f, self_ty, src_ty in (to_w[:1] + from_w[:1]):
         src = next((b for p_ in f["params"] for b in pat_bindings(p_)), None)
         aliases = {}         # local -> source field it was destructured from
